@@ -4,6 +4,9 @@ pub(crate) use types::{write_ty, write_ty_kind};
 mod ast;
 mod types;
 
+#[cfg(kani)]
+pub use ast::verif_hooks as kani_ast;
+
 pub trait WriteSource {
     /// Converts self to its source representation according to specified
     /// options.
